@@ -179,9 +179,11 @@ def _sliced(ob, timeout_ms):
         return False
 
 
-def solve_one(ob: Obligation, timeout_ms: int, portfolio=True, seed=0):
-    """plain z3 with a short budget -> lemma slice -> plain z3 with the full budget -> other back ends on the SMT-LIB dump
-    (a fresh z3 5.1 process, cvc5, z3 4.8).  Slow queries are the unstable ones: diversity instead of one long attempt."""
+def solve_one(ob: Obligation, timeout_ms: int, portfolio=True, seed=0, cheap=False):
+    """plain z3 with a short budget -> lemma slice -> bounded refutation (a counter-model with the integer inputs in a
+    small box is a genuine counter-model) -> plain z3 with the full budget -> other back ends on the SMT-LIB dump (a fresh
+    z3 5.1 process, cvc5, z3 4.8).  Slow queries are the unstable ones: diversity instead of one long attempt.
+    cheap=True stops after the bounded refutation (used once a scenario has already produced several undecided VCs)."""
     t0 = time.time()
     zv = 'z3-' + z3.get_version_string()
     short = min(timeout_ms, 4000)
@@ -190,6 +192,10 @@ def solve_one(ob: Obligation, timeout_ms: int, portfolio=True, seed=0):
         return st, zv, time.time() - t0, model, reason
     if _sliced(ob, timeout_ms):
         return 'proved', zv + ' (lemma slice)', time.time() - t0, None, ''
+    if bounded_refute(ob, 3, 4000):
+        return 'refuted', zv, time.time() - t0, ob.model, 'counter-model found with integer inputs confined to [-3, 3]'
+    if cheap:
+        return 'unknown', zv, time.time() - t0, None, reason + ' (cheap mode: full-budget attempts skipped)'
     if timeout_ms > short:
         st, model, reason = _plain(ob, timeout_ms, seed + 1)
         if st != 'unknown':
